@@ -1226,6 +1226,7 @@ func c24SuiteCertRules(c *Ctx) {
 func c05Extras(c *Ctx) {
 	w := c.W
 	curveTableRule(c, "z/x509.signingParamsForPublicKey", "certificate, CSR and CRL signing")
+	sigParamsTableRule(c, "z/x509.signingParamsForPublicKey")
 	fn := w.Fn("z/x509.signingParamsForPublicKey")
 	if fn == nil {
 		c.Undecided("R-PROV", "x509.signingParamsForPublicKey", "anchor", "-", "not found")
